@@ -19,6 +19,21 @@ class Side:
     self.import_root = import_root
     self.label = label
 
+  def run_real(self, schema, rows):
+    """execute this side on real SQLite without going through the model."""
+    if self.workflow:
+      from . import plan
+      con = real.connect()
+      try:
+        dbm.load_sqlite(con, schema, rows)
+        runner = plan.RealRunner(con)
+        res = plan.execute(plan.compile_executions(self.text, self.preds), runner)
+        return res[self.pred]
+      finally:
+        con.close()
+    c = real.compile_pred(self.text, self.pred, import_root=self.import_root)
+    return e1.run_real(c.statements(), schema, rows)
+
   def build(self, D, strings, range_bound, compaction):
     if self.workflow:
       return e1.WorkflowSide(self.text, self.preds, D, strings, range_bound, compaction, want=self.pred)
